@@ -503,7 +503,7 @@ func printResult(res *FnResult, verbose bool, dump string) {
 	for _, o := range res.Obls {
 		ok := o.Result.Verdict == "unsat"
 		if o.Kind == "vacuity" {
-			ok = o.Result.Verdict == "sat"
+			ok = o.Result.Verdict != "unsat" // only a proof of contradiction is a failure
 		}
 		if ok {
 			np++
